@@ -27,7 +27,9 @@ RULE = (
     "container holding a star-expression keeps its whole text; (4) with create+fix approved and all "
     "user-controlled parts correct the rewritten test passes with inline-snapshot inactive, otherwise managed "
     "entries under surviving keys evaluate to the observed values; (5) a nested snapshot( keeps its wrapper "
-    "unless its holding element was removed. non-trivial = >= 1 user-controlled and >= 1 managed sibling with "
+    "unless its holding element was removed. The comparison is executed once, twice in a loop (the argument "
+    "is evaluated again and user-controlled slots are re-bound) or never (then only `update` may touch the "
+    "text, and never a user-controlled part or a star container). non-trivial = >= 1 user-controlled and >= 1 managed sibling with "
     "a pending change in the same container."
 )
 ASSUMPTIONS = [
@@ -138,7 +140,10 @@ def _container(draw, depth, tier, base=0):
 
 
 def _strategy(tier):
-    return st.builds(lambda c, F: {"c": c, "F": F}, _container(0, tier), flag_sets())
+    # mode: the comparison is executed once / twice (the argument is evaluated again) / never (only the text of the
+    # snapshot can be updated)
+    return st.builds(lambda c, F, mode: {"c": c, "F": F, "mode": mode}, _container(0, tier), flag_sets(),
+                     st.sampled_from(["once", "once", "once", "twice", "twice", "unused"]))
 
 
 # ---------------------------------------------------------------------------- rendering
@@ -392,8 +397,15 @@ def check(case):
     decls = []
     old_text = render_old(c, decls)
     src = ("from inline_snapshot import snapshot, Is\nfrom dirty_equals import IsInt, IsStr, AnyThing\n"
-           "from vf_prelude import *\n\n" + "\n".join(decls) + "\n\n\ndef test_a():\n"
-           f"    assert {render_new(c)} == snapshot({old_text})\n")
+           "from vf_prelude import *\n\n" + "\n".join(decls) + "\n\n\ndef test_a():\n")
+    mode = case.get("mode", "once")
+    if mode == "twice":
+        src += (f"    ok = []\n    for _ in range(2):\n        ok.append({render_new(c)} == snapshot({old_text}))\n"
+                "    assert all(ok)\n")
+    elif mode == "unused":
+        src += f"    s = snapshot({old_text})\n"
+    else:
+        src += f"    assert {render_new(c)} == snapshot({old_text})\n"
     try:
         ast.parse(src)
     except SyntaxError as e:
@@ -419,6 +431,21 @@ def check(case):
 
     def fail(kind, msg):
         raise Violation(kind, f"F={F} {msg}\n--- before\n{src}\n--- after\n{after}")
+
+    if mode == "unused":
+        # nothing was observed: only `update` may touch the text, and never a user-controlled part
+        segs = []
+        unmanaged_segments(c, segs)
+        if "update" not in F and new_arg != old_text:
+            fail("unused-rewritten", "a snapshot that was never compared changed without `update`")
+        if c.get("star") is not None and oracles.masked(new_arg, None) != oracles.masked(old_text, None):
+            fail("star-container-rewritten", "a container holding a star-expression was edited")
+        for t in segs:
+            if new_arg.count(t) != old_text.count(t):
+                fail("unmanaged-removed", f"{t!r} of a never compared snapshot was altered")
+        return {"nontrivial": count_u(c) >= 1 and "update" in F and new_arg != old_text,
+                "classes": [c["kind"], "unused", "F=" + ",".join(F)] + (["star"] if c.get("star") is not None else []),
+                "sample": {"F": F, "before": src, "after_arg": new_arg}}
 
     # (3) star containers keep their text
     if c.get("star") is not None:
@@ -487,7 +514,7 @@ def check(case):
         elif r is not None and not isinstance(r, AssertionError):
             fail("disabled-test-raised", f"{type(r).__name__}: {r}")
     nt = count_u(c) >= 1 and has_pending(c)
-    return {"nontrivial": nt, "classes": [c["kind"], "F=" + ",".join(F)] + (["star"] if c.get("star") is not None else [])
+    return {"nontrivial": nt, "classes": [c["kind"], mode, "F=" + ",".join(F)] + (["star"] if c.get("star") is not None else [])
             + sorted({e["type"] for e in c["elems"]}),
             "sample": {"F": F, "before": src, "after_arg": new_arg}}
 
